@@ -489,6 +489,37 @@ func checkC10(res *Result) {
 	addErrFlowObligations(res, p, E, "C10-R7", []string{"baseActor.PostInboxScheme", "baseActor.PostOutboxScheme", "baseActor.GetInbox", "baseActor.GetOutbox", "NewActivityStreamsHandlerScheme$1", "baseActor.deliver", "sideEffectActor.PostInbox", "sideEffectActor.PostOutbox", "sideEffectActor.AuthorizePostInbox"}, true)
 	res.Rule("C10-R9", "sentinel transparency: sideEffectActor.PostInbox / PostOutbox and baseActor.deliver hand a callback's error on as it is — none builds a new error from it and returns that instead (the comparison with ErrObjectRequired / ErrTargetRequired at the entry point decides the 400)")
 	checkSentinelTransparent(res, p, E, "C10-R9", []string{"sideEffectActor.PostInbox", "sideEffectActor.PostOutbox", "baseActor.deliver"})
+	res.Rule("C10-R10", "unknown type ⇒ 400 rests on streams.ToType never answering (nil, nil): JSONResolver.Resolve (and its dispatch closure) return a nil error only where a callback has been called; ToType returns a nil error only after Resolve")
+	if sp := loadStreamsRootSSA(); sp != nil {
+		nret := 0
+		if fn := methodOf(sp, "JSONResolver", "Resolve"); fn != nil {
+			anon := map[*ssa.Function]bool{}
+			for _, a := range fn.AnonFuncs {
+				anon[a] = true
+			}
+			nret += checkNilOnlyAfter(res, "C10-R10", fn, 0, true, func(c ssa.CallInstruction) bool {
+				if c.Common().IsInvoke() {
+					return false
+				}
+				if _, isBuiltin := c.Common().Value.(*ssa.Builtin); isBuiltin {
+					return false
+				}
+				callee := c.Common().StaticCallee()
+				return callee == nil || anon[callee]
+			}, "a call of a resolver callback")
+		} else {
+			res.undecided("C10-R10", "JSONResolver.Resolve", "-", "found in SSA", "missing")
+		}
+		if fn := sp.Func("ToType"); fn != nil {
+			nret += checkNilOnlyAfter(res, "C10-R10", fn, 1, false, func(c ssa.CallInstruction) bool {
+				callee := c.Common().StaticCallee()
+				return callee != nil && callee.Name() == "Resolve" && callee.Signature.Recv() != nil
+			}, "the call of JSONResolver.Resolve")
+		} else {
+			res.undecided("C10-R10", "ToType", "-", "found in SSA", "missing")
+		}
+		res.Count("C10-R10 returns examined", nret, 100)
+	}
 	// R5-provenance of the sentinels is C16-R1 (shared rule), applied here too
 	checkRequiredFirst(res, p, E, "C10-R6")
 	res.Rule("C10-R6", "the 400 sentinels come from where documented: every default callback whose activity requires object (target) returns ErrObjectRequired (ErrTargetRequired) when it is nil or empty, before any effect")
